@@ -72,27 +72,41 @@ Fixpoint parse_digits (x : str) : Decimal.uint * str :=
   | [] => (Decimal.Nil, [])
   end.
 
+(** [starts_with pre x]: [x] begins with [pre] *)
+Fixpoint starts_with (pre x : str) : bool :=
+  match pre, x with
+  | [], _ => true
+  | a :: p', b :: x' => N.eqb a b && starts_with p' x'
+  | _ :: _, [] => false
+  end.
+
 Fixpoint parse_value (fuel : nat) (x : str) : option (json * str) :=
   match fuel with
   | O => None
   | S f =>
       match skip_ws x with
-      | 110 :: 117 :: 108 :: 108 :: r => Some (JNull, r)
-      | 116 :: 114 :: 117 :: 101 :: r => Some (JBool true, r)
-      | 102 :: 97 :: 108 :: 115 :: 101 :: r => Some (JBool false, r)
-      | 34 :: r => match parse_string_body r with Some (t, rest) => Some (JStr t, rest) | None => None end
-      | 91 :: r =>
-          match skip_ws r with
-          | 93 :: r' => Some (JArr [], r')
-          | _ => match parse_elems f r with Some (l, rest) => Some (JArr l, rest) | None => None end
-          end
-      | 123 :: r =>
-          match skip_ws r with
-          | 125 :: r' => Some (JObj [], r')
-          | _ => match parse_members f r with Some (l, rest) => Some (JObj l, rest) | None => None end
-          end
-      | c :: r => if is_digit c then let '(u, rest) := parse_digits (c :: r) in Some (JNum (N.of_uint u), rest) else None
       | [] => None
+      | c :: r =>
+          if N.eqb c 34 then
+            match parse_string_body r with Some (t, rest) => Some (JStr t, rest) | None => None end
+          else if N.eqb c 91 then
+            match skip_ws r with
+            | d :: r' => if N.eqb d 93 then Some (JArr [], r')
+                         else match parse_elems f r with Some (l, rest) => Some (JArr l, rest) | None => None end
+            | [] => None
+            end
+          else if N.eqb c 123 then
+            match skip_ws r with
+            | d :: r' => if N.eqb d 125 then Some (JObj [], r')
+                         else match parse_members f r with Some (l, rest) => Some (JObj l, rest) | None => None end
+            | [] => None
+            end
+          else if is_digit c then
+            let '(u, rest) := parse_digits (c :: r) in Some (JNum (N.of_uint u), rest)
+          else if starts_with [110; 117; 108; 108] (c :: r) then Some (JNull, skipn 4 (c :: r))
+          else if starts_with [116; 114; 117; 101] (c :: r) then Some (JBool true, skipn 4 (c :: r))
+          else if starts_with [102; 97; 108; 115; 101] (c :: r) then Some (JBool false, skipn 5 (c :: r))
+          else None
       end
   end
 with parse_elems (fuel : nat) (x : str) : option (list json * str) :=
@@ -103,9 +117,11 @@ with parse_elems (fuel : nat) (x : str) : option (list json * str) :=
       | None => None
       | Some (v, r) =>
           match skip_ws r with
-          | 44 :: r' => match parse_elems f r' with Some (l, rest) => Some (v :: l, rest) | None => None end
-          | 93 :: r' => Some ([v], r')
-          | _ => None
+          | d :: r' =>
+              if N.eqb d 44 then match parse_elems f r' with Some (l, rest) => Some (v :: l, rest) | None => None end
+              else if N.eqb d 93 then Some ([v], r')
+              else None
+          | [] => None
           end
       end
   end
@@ -114,25 +130,31 @@ with parse_members (fuel : nat) (x : str) : option (list (str * json) * str) :=
   | O => None
   | S f =>
       match skip_ws x with
-      | 34 :: r =>
-          match parse_string_body r with
-          | None => None
-          | Some (k, r1) =>
-              match skip_ws r1 with
-              | 58 :: r2 =>
-                  match parse_value f r2 with
-                  | None => None
-                  | Some (v, r3) =>
-                      match skip_ws r3 with
-                      | 44 :: r4 => match parse_members f r4 with Some (l, rest) => Some ((k, v) :: l, rest) | None => None end
-                      | 125 :: r4 => Some ([(k, v)], r4)
-                      | _ => None
+      | q :: r =>
+          if N.eqb q 34 then
+            match parse_string_body r with
+            | None => None
+            | Some (k, r1) =>
+                match skip_ws r1 with
+                | d :: r2 =>
+                    if N.eqb d 58 then
+                      match parse_value f r2 with
+                      | None => None
+                      | Some (v, r3) =>
+                          match skip_ws r3 with
+                          | e :: r4 =>
+                              if N.eqb e 44 then match parse_members f r4 with Some (l, rest) => Some ((k, v) :: l, rest) | None => None end
+                              else if N.eqb e 125 then Some ([(k, v)], r4)
+                              else None
+                          | [] => None
+                          end
                       end
-                  end
-              | _ => None
-              end
-          end
-      | _ => None
+                    else None
+                | [] => None
+                end
+            end
+          else None
+      | [] => None
       end
   end.
 
@@ -162,13 +184,6 @@ Inductive tmode :=
 Definition is_name_start (c : N) : bool := ((65 <=? c) && (c <=? 90)) || ((97 <=? c) && (c <=? 122)) || N.eqb c 95.
 Definition is_name_cont (c : N) : bool := is_name_start c || is_digit c.
 Definition is_ignored (c : N) : bool := N.eqb c 32 || N.eqb c 9 || N.eqb c 10 || N.eqb c 13 || N.eqb c 44 || N.eqb c 65279.
-
-Fixpoint starts_with (pre x : str) : bool :=
-  match pre, x with
-  | [], _ => true
-  | a :: p', b :: x' => N.eqb a b && starts_with p' x'
-  | _ :: _, [] => false
-  end.
 
 Definition normal_step (c : N) (r : str) : bool * tmode :=
   if is_ignored c then (false, TNormal)
